@@ -273,7 +273,7 @@ func init() {
 			k.EdgeP = 450
 			k.SlowDeathP = 700
 			k.RestartP = 150
-			k.Conds = []string{"process_started", "process_started", "process_log_ready", "process_healthy", "process_completed"}
+			k.Conds = []string{"process_started", "process_started", "process_log_ready", "process_completed"}
 			GenCore(r, k, sc)
 			sc.OrderedShutdown = true
 			sc.RunForMs = 40000
